@@ -49,6 +49,14 @@ pub fn decode_checked(bytes: &[u8]) -> (Decoded, Vec<String>) {
                     problems.push(format!("text field {} holds {} bytes, capacity {}", name, b.len(), cap));
                 }
             }
+            // a decoded request can be cloned, compared and formatted without surprises
+            let c = r.clone();
+            if c != r {
+                problems.push("clone of the decoded request is not equal to it".to_string());
+            }
+            if !cfg!(miri) && format!("{:?}", c) != format!("{:?}", r) {
+                problems.push("clone of the decoded request formats differently".to_string());
+            }
             let lo = bytes.as_ptr() as usize;
             let hi = lo + bytes.len();
             let mut inside = 0usize;
